@@ -1,6 +1,12 @@
 ENGINES = [
- {"name": "overlay", "path": "bin/vcheck", "serves_properties": [], "kind_free_text": "builds a go test -overlay from /repo's working tree + harness files + virtual runtime packages; runs shards; writes evidence"},
+ {"name": "overlay+vinstr", "path": "bin/vcheck, vinstr/", "serves_properties": ["C18"], "kind_free_text": "builds a go test -overlay from /repo's working tree + harness files + virtual runtime packages + type-directed rewrites (owned map order, sync/go/time shims, hooks); runs shards; classifies against known_findings.json; writes evidence"},
+ {"name": "verifrt.enum/choose", "path": "rt/verifrt/choose.go", "serves_properties": ["C18"], "kind_free_text": "exhaustive product enumeration + depth-first exploration of environment choice vectors (map iteration order etc.) with deviation bounding"},
 ]
-NOTES = "All checks run in-package harnesses compiled from /repo's current working tree through go test -overlay (build tag verif); nothing is committed to /repo for instrumentation."
+NOTES = "All checks run in-package harnesses compiled from /repo's current working tree through go test -overlay (build tag verif); nothing is committed to /repo for instrumentation. fix: commits in /repo are listed in known_findings.json."
 NOT_YET = {}
-CHECKS = {}
+CHECKS = {
+ "C18": dict(category="exploration", engine="verifrt.enum/choose", design_ref="5/C18",
+   technique="exhaustive enumeration of listing permutations x owned map-iteration orders on the real toConfig",
+   text="Every snapshot of a catalogue (valid and rejected) x every permutation of each listed kind (k=3 quick, 4 thorough; singly and pairwise product) x every explored map-iteration order inside internal/config (R-map, <=1/2 non-default orders) x repetitions is run through the real toConfig/config.For and compared with reflect.DeepEqual (the reconcilers' own comparison) and by verdict. Bounded-exhaustive over the catalogue; order-dependent candidates are confirmed on the runtime's native order before being reported.",
+   note="Trusted: the snapshot catalogue closes the input space (<=4 objects/kind); map orders explored = all orders for <=3 keys, rotations+reversal above; reconciler end-to-end (DeepEqual guard) covered by construction since it calls the same toConfig."),
+}
